@@ -55,6 +55,7 @@ MsgMatch(o, e) ==
   /\ (IF e.ser = 0 THEN o.ser # 0 ELSE o.ser = e.ser)
   /\ o.path = e.path /\ o.ifc = e.ifc /\ o.mem = e.mem /\ o.err = e.err
   /\ o.unk = <<>> /\ o.ci = FALSE /\ o.nfd = e.nfd
+  /\ o.mal = FALSE          \* the bytes the client read were well-formed (zero padding, exact body length)
   /\ CASE e.cmp = "exact" -> o.sig = e.sig /\ ArgsEq(o.args, e.args) /\ (e.org # 0 => o.fl = e.fl)
        [] e.cmp = "set1" -> /\ o.sig = e.sig /\ Len(o.args) = 1
                             /\ Len(o.args[1].v) = Len(e.args[1].v) /\ SetOf(o.args[1].v) = SetOf(e.args[1].v)
@@ -79,24 +80,6 @@ GroupFor(o, r) == LET sel == SelectSeq(o, LAMBDA e : e.to = r) IN [i \in 1..Len(
 
 \* after a Bus action: every client that is still reading must have observed exactly what was staged for it
 Debug == IOEnv.VERIF_DEBUG = "1"
-ExplainOK(g) ==
-  \A r \in Slot : r \notin g /\ r \notin sdone =>
-        LET grp == GroupFor(out', r) IN
-        /\ cnt[r] + Len(grp) <= Len(Ev.obs[r])
-        /\ GroupMatch(SubSeq(Ev.obs[r], cnt[r] + 1, cnt[r] + Len(grp)), grp)
-Explain(g) ==
-  /\ \/ ExplainOK(g)
-     \/ /\ Debug
-        /\ PrintT(<<"MISMATCH", ToJson([l |-> l, pos |-> pos, cnt |-> cnt, out |-> out',
-                     bad |-> {r \in Slot : r \notin g /\ r \notin sdone /\
-                               ~(LET grp == GroupFor(out', r) IN
-                                 /\ cnt[r] + Len(grp) <= Len(Ev.obs[r])
-                                 /\ GroupMatch(SubSeq(Ev.obs[r], cnt[r] + 1, cnt[r] + Len(grp)), grp))}])>>)
-        /\ FALSE
-  /\ cnt' = [r \in Slot |-> IF r \in g \/ r \in sdone THEN cnt[r] ELSE cnt[r] + Len(GroupFor(out', r))]
-  /\ carry' = [r \in Slot |-> IF r \in sdone /\ r \notin g /\ GroupFor(out', r) # <<>>
-                               THEN Append(carry[r], GroupFor(out', r)) ELSE carry[r]]
-
 \* carried groups against the head of the next round's observations
 RECURSIVE CarryMatch(_,_,_,_)
 CarryMatch(ob, start, groups, i) ==
@@ -106,6 +89,29 @@ CarryMatch(ob, start, groups, i) ==
        /\ CarryMatch(ob, start + Len(groups[i]), groups, i + 1)
 RECURSIVE CarryLen(_,_)
 CarryLen(groups, i) == IF i > Len(groups) THEN 0 ELSE Len(groups[i]) + CarryLen(groups, i + 1)
+NextIsRound == IF l + 1 <= Len(Log) THEN Log[l + 1].e = "Round" ELSE FALSE
+
+ExplainOK(g) ==
+  \A r \in Slot : r \notin g =>
+        LET grp == GroupFor(out', r) IN
+        IF r \notin sdone
+        THEN /\ cnt[r] + Len(grp) <= Len(Ev.obs[r])
+             /\ GroupMatch(SubSeq(Ev.obs[r], cnt[r] + 1, cnt[r] + Len(grp)), grp)
+        \* already past its closing ping: the client reads this at the start of the next round (checked at once)
+        ELSE IF grp = <<>> THEN TRUE ELSE IF NextIsRound THEN CarryMatch(Log[l + 1].obs[r], 0, Append(carry[r], grp), 1) ELSE TRUE
+Explain(g) ==
+  /\ \/ ExplainOK(g)
+     \/ /\ Debug
+        /\ PrintT(<<"MISMATCH", ToJson([l |-> l, pos |-> pos, cnt |-> cnt, out |-> out',
+                     bad |-> {r \in Slot : r \notin g /\ r \notin sdone /\
+                               ~(LET grp == GroupFor(out', r) IN
+                                 /\ cnt[r] + Len(grp) <= Len(Ev.obs[r])
+                                 /\ GroupMatch(SubSeq(Ev.obs[r], cnt[r] + 1, cnt[r] + Len(grp)), grp))},
+                     badcarry |-> {r \in Slot : r \notin g /\ r \in sdone /\ GroupFor(out', r) # <<>>}])>>)
+        /\ FALSE
+  /\ cnt' = [r \in Slot |-> IF r \in g \/ r \in sdone THEN cnt[r] ELSE cnt[r] + Len(GroupFor(out', r))]
+  /\ carry' = [r \in Slot |-> IF r \in sdone /\ r \notin g /\ GroupFor(out', r) # <<>>
+                               THEN Append(carry[r], GroupFor(out', r)) ELSE carry[r]]
 
 \* ---- abstract message of a "send" op
 OpMsg(op) == Msg(op.ty, <<>>, op.dst, op.ser, op.rs, op.path, op.ifc, op.mem, op.err, op.sig, op.args, op.fl, 0, "exact")
